@@ -22,6 +22,10 @@ func init() {
 type travRealTree struct {
 	nodes []*newick.Node       // nodes[v], nodes[0] unused
 	id    map[*newick.Node]int // pointer -> id
+	// iterators of the root obtained while it had no children yet (an iter.Seq is a recipe: it is the tree at the time of the
+	// pass that is traversed)
+	earlyPre, earlyPost func(func(*newick.Node) bool)
+	useEarly            bool
 }
 
 // travBuildTree makes real nodes from child lists (kids[v-1] = children of v in slice order).
@@ -31,6 +35,9 @@ func travBuildTree(kids [][]int) *travRealTree {
 	for v := 1; v <= n; v++ {
 		t.nodes[v] = &newick.Node{Name: "n" + strconv.Itoa(v), Distance: float64(v)}
 		t.id[t.nodes[v]] = v
+	}
+	if n > 0 {
+		t.earlyPre, t.earlyPost = t.nodes[1].PreOrder(), t.nodes[1].PostOrder()
 	}
 	for v := 1; v <= n; v++ {
 		if len(kids[v-1]) == 0 {
@@ -75,11 +82,31 @@ func (t *travRealTree) walk(pre bool) []int {
 	if pre {
 		seq = t.nodes[1].PreOrder()
 	}
+	if t.useEarly {
+		seq = t.earlyPost
+		if pre {
+			seq = t.earlyPre
+		}
+	}
 	seq(func(n *newick.Node) bool {
 		out = append(out, t.id[n])
 		return len(out) < limit
 	})
 	return out
+}
+
+// abandon: passes of both kinds given up after `at` nodes (what such a pass leaves behind must not matter to later ones)
+func (t *travRealTree) abandon(at int) {
+	for _, seq := range []func(func(*newick.Node) bool){t.nodes[1].PreOrder(), t.nodes[1].PostOrder()} {
+		k := 0
+		catch(func() {
+			for range seq {
+				if k++; k >= at {
+					break
+				}
+			}
+		})
+	}
 }
 
 // ---------------------------------------------------------------- leg R
@@ -429,6 +456,12 @@ func traverseDrive(args []string) error {
 		}
 		ev := travEvent{Sid: sid, Kind: s.kind, N: n, Direct: n <= 10000 && n*maxDepth <= 10000000}
 		ev.Kids = t.encode()
+		t.useEarly = sid%3 == 1
+		if sid%2 == 0 { // earlier passes that were given up part-way
+			t.abandon(1)
+			t.abandon(1 + n/2)
+			t.abandon(n)
+		}
 		ev.Pre = t.walk(true)
 		ev.Post = t.walk(false)
 		ev.NPre, ev.NPost, ev.NInner = []int{}, []int{}, []int{}
